@@ -1,78 +1,99 @@
 ---------------------------- MODULE Cobs ----------------------------
-EXTENDS Naturals, Sequences, FiniteSets, TLC
-CONSTANT MAXRUN          \* 254 in reality: a code byte c <= MAXRUN means "c-1 data bytes then an implied zero",
-                         \* c = MAXRUN+1 means "MAXRUN data bytes, no implied zero"
-\* ---------------- functional definition (by groups, Cheshire & Baker) ----------------
-RECURSIVE RunLen(_, _)     \* number of leading non-zero bytes of SubSeq(m, i, ..)
+(* Consistent Overhead Byte Stuffing (Cheshire & Baker) as used by postcard, parametric in MR, the
+   maximum number of data bytes a code byte can announce (254 in reality; 2..4 in scaled models):
+     code c <= MR   : c-1 data bytes follow, then an implied zero (unless the frame ends there)
+     code c = MR+1  : MR data bytes follow, no implied zero
+   Functional definitions (by groups) and implementation-shaped machines:
+     - the streaming encoder cobs::EncoderState as driven by postcard's ser_flavors::Cobs over a store
+     - the in-place decoder cobs::decode_in_place_report (decode_raw), one action per loop iteration *)
+EXTENDS Integers, Sequences, FiniteSets
+
+\* ---------------- functional definition ----------------
+RECURSIVE RunLen(_, _)     \* number of leading non-zero bytes of m[i..]
 RunLen(m, i) == IF i > Len(m) \/ m[i] = 0 THEN 0 ELSE 1 + RunLen(m, i + 1)
-RECURSIVE CobsFrom(_, _)
-\* encode m[i..]; a group is emitted even when nothing is left ("the final code"), which is what
-\* postcard's streaming encoder does after a full MAXRUN block or a trailing zero
-CobsFrom(m, i) ==
+RECURSIVE CobsFrom(_, _, _)
+\* encode m[i..]; a group is emitted even when nothing is left ("the final code"), which is what the
+\* streaming encoder does after a full MR block or a trailing zero
+CobsFrom(m, i, MR) ==
   LET r == RunLen(m, i) IN
-  IF r >= MAXRUN THEN <<MAXRUN + 1>> \o SubSeq(m, i, i + MAXRUN - 1) \o CobsFrom(m, i + MAXRUN)
-  ELSE IF i + r > Len(m) THEN <<r + 1>> \o SubSeq(m, i, i + r - 1)             \* last group, no zero follows
-  ELSE <<r + 1>> \o SubSeq(m, i, i + r - 1) \o CobsFrom(m, i + r + 1)          \* group ended by a zero of m
-CobsEnc(m) == CobsFrom(m, 1)
-Framed(m) == CobsEnc(m) \o <<0>>
-\* standard decoder of one frame body (no zeros inside): [ok, out]
-RECURSIVE CobsDecFrom(_, _, _)
-CobsDecFrom(f, i, out) ==
+  IF r >= MR THEN <<MR + 1>> \o SubSeq(m, i, i + MR - 1) \o CobsFrom(m, i + MR, MR)
+  ELSE IF i + r > Len(m) THEN <<r + 1>> \o SubSeq(m, i, i + r - 1)               \* last group, no zero follows
+  ELSE <<r + 1>> \o SubSeq(m, i, i + r - 1) \o CobsFrom(m, i + r + 1, MR)          \* group ended by a zero of m
+CobsEnc(m, MR) == CobsFrom(m, 1, MR)
+Framed(m, MR) == CobsEnc(m, MR) \o <<0>>
+\* standard decoder of one frame body f (no zero inside): [ok, out]; fails iff a code points past the end
+RECURSIVE CobsDecFrom(_, _, _, _)
+CobsDecFrom(f, i, out, MR) ==
   IF i > Len(f) THEN [ok |-> TRUE, out |-> out]
   ELSE LET c == f[i] IN
        IF i + c - 1 > Len(f) THEN [ok |-> FALSE, out |-> out]
        ELSE LET data == SubSeq(f, i + 1, i + c - 1)  nxt == i + c
-                z == IF c # MAXRUN + 1 /\ nxt <= Len(f) THEN <<0>> ELSE <<>>
-            IN CobsDecFrom(f, nxt, out \o data \o z)
-CobsDec(f) == CobsDecFrom(f, 1, <<>>)
+                z == IF c # MR + 1 /\ nxt <= Len(f) THEN <<0>> ELSE <<>>
+            IN CobsDecFrom(f, nxt, out \o data \o z, MR)
+CobsDec(f, MR) == CobsDecFrom(f, 1, <<>>, MR)
+
+FirstZero(s) == IF \E i \in 1..Len(s) : s[i] = 0 THEN CHOOSE i \in 1..Len(s) : s[i] = 0 /\ \A j \in 1..(i-1) : s[j] # 0 ELSE 0
+\* the first frame of a buffer: everything before the first zero (or the whole buffer)
+FrameEnd(s) == LET z == FirstZero(s) IN IF z = 0 THEN Len(s) ELSE z - 1
+FirstFrame(s) == SubSeq(s, 1, FrameEnd(s))
+\* what decode_in_place_report must answer, functionally: [ok, out, dstUsed, srcUsed, buf]
+DecodeReport(s, MR) ==
+  LET f == FirstFrame(s)  d == CobsDec(f, MR) IN
+  IF ~d.ok THEN [ok |-> FALSE, out |-> <<>>, dstUsed |-> 0, srcUsed |-> 0, buf |-> s]
+  ELSE [ok |-> TRUE, out |-> d.out, dstUsed |-> Len(d.out), srcUsed |-> Len(f),
+        buf |-> d.out \o SubSeq(s, Len(d.out) + 1, Len(s))]
 
 \* ---------------- storage + streaming encoder as pure step functions ----------------
-INF == 1000000
-StPush(st, b) == IF Len(st.buf) >= st.cap THEN [st EXCEPT !.full = TRUE] ELSE [st EXCEPT !.buf = Append(@, b)]
+\* store: [buf, cap, full]; cap = -1 means unbounded
+StPush(st, b) == IF st.cap >= 0 /\ Len(st.buf) >= st.cap THEN [st EXCEPT !.full = TRUE] ELSE [st EXCEPT !.buf = Append(@, b)]
 StPatch(st, idx, v) == [st EXCEPT !.buf[idx + 1] = v]          \* idx < Len(buf) is an invariant obligation
+StNew(cap) == [buf |-> <<>>, cap |-> cap, full |-> FALSE]
 \* cobs::EncoderState {code_idx, num_bt_sent, offset_idx}
 EncInit == [code |-> 0, sent |-> 1, off |-> 1]
-\* returns [e, st]; mirrors postcard's Cobs::try_push; stops at the first storage failure
-CobsPush(e, st, b) ==
+\* mirrors ser_flavors::Cobs::try_push; stops at the first storage failure
+CobsPush(e, st, b, MR) ==
   IF b = 0 THEN
        LET s1 == StPatch(st, e.code, e.sent)  s2 == StPush(s1, 0)
        IN [e |-> [code |-> e.code + e.off, sent |-> 1, off |-> 1], st |-> s2]
-  ELSE IF e.sent + 1 = MAXRUN + 1 THEN
-       LET s1 == StPatch(st, e.code, MAXRUN + 1)  s2 == StPush(s1, b)
+  ELSE IF e.sent + 1 = MR + 1 THEN
+       LET s1 == StPatch(st, e.code, MR + 1)  s2 == StPush(s1, b)
            s3 == IF s2.full THEN s2 ELSE StPush(s2, 0)
        IN [e |-> [code |-> e.code + e.off + 1, sent |-> 1, off |-> 1], st |-> s3]
   ELSE [e |-> [code |-> e.code, sent |-> e.sent + 1, off |-> e.off + 1], st |-> StPush(st, b)]
 CobsFinalize(e, st) == StPush(StPatch(st, e.code, e.sent), 0)
 
-\* ---------------- model: feed a message byte by byte into Cobs<storage(cap)> ----------------
-CONSTANTS Alphabet, MaxLen, MaxCap
-VARIABLES msg, pos, e, st, phase     \* phase: "new" | "run" | "ok" | "err"
-vars == <<msg, pos, e, st, phase>>
-Msgs == UNION {[1..k -> Alphabet] : k \in 0..MaxLen}
-Init == /\ msg \in Msgs /\ pos = 0 /\ e = EncInit /\ phase = "new"
-        /\ \E c \in 0..MaxCap : st = [buf |-> <<>>, cap |-> c, full |-> FALSE]
-New == /\ phase = "new"                                          \* Cobs::try_new reserves the first code byte
-       /\ LET s == StPush(st, 0) IN st' = s /\ phase' = IF s.full THEN "err" ELSE "run"
-       /\ UNCHANGED <<msg, pos, e>>
-Push == /\ phase = "run" /\ pos < Len(msg)
-        /\ LET r == CobsPush(e, st, msg[pos + 1]) IN
-             /\ e' = r.e /\ st' = r.st /\ pos' = pos + 1 /\ phase' = IF r.st.full THEN "err" ELSE "run"
-        /\ UNCHANGED msg
-Fin == /\ phase = "run" /\ pos = Len(msg)
-       /\ LET s == CobsFinalize(e, st) IN st' = s /\ phase' = IF s.full THEN "err" ELSE "ok"
-       /\ UNCHANGED <<msg, pos, e>>
-Next == New \/ Push \/ Fin
-Spec == Init /\ [][Next]_vars
+\* ---------------- in-place decoder machine (decode_raw with src = dst) ----------------
+\* state: [buf, srcEnd, si, di, left (bytes still to copy for the current code), code, status, lastR, lastW]
+\* lastR / lastW: index (0-based) of the last buffer read / write, -1 if none yet
+DrInit(s) == [buf |-> s, srcEnd |-> FrameEnd(s), si |-> 0, di |-> 0, left |-> 0, code |-> 0, status |-> "code",
+              lastR |-> -1, lastW |-> -1]
+\* one loop iteration of either the outer while (status "code") or the inner for (status "copy")
+DrStep(st, MR) ==
+  IF st.status = "code" THEN
+     IF st.si >= st.srcEnd THEN [st EXCEPT !.status = "done"]
+     ELSE LET c == st.buf[st.si + 1] IN
+          IF st.si + c > st.srcEnd /\ c # 1 THEN [st EXCEPT !.status = "err", !.lastR = st.si]
+          ELSE [st EXCEPT !.code = c, !.left = c - 1, !.si = st.si + 1, !.status = "copy", !.lastR = st.si]
+  ELSE IF st.status = "copy" THEN
+     IF st.left > 0 THEN [st EXCEPT !.buf[st.di + 1] = st.buf[st.si + 1], !.si = st.si + 1, !.di = st.di + 1, !.left = st.left - 1,
+                                    !.lastR = st.si, !.lastW = st.di]
+     ELSE IF st.code # MR + 1 /\ st.si < st.srcEnd THEN [st EXCEPT !.buf[st.di + 1] = 0, !.di = st.di + 1, !.status = "code", !.lastW = st.di]
+     ELSE [st EXCEPT !.status = "code"]
+  ELSE st
 
-\* ---------------- properties ----------------
-InBounds == Len(st.buf) <= st.cap
-PatchBelowCursor == phase = "run" => e.code < Len(st.buf) /\ e.code + e.off = Len(st.buf)
-Threshold == /\ phase = "ok"  => st.buf = Framed(msg)
-             /\ phase = "err" => st.cap < Len(Framed(msg))
-             /\ (phase \in {"ok", "err"}) => (phase = "ok" <=> st.cap >= Len(Framed(msg)))
-NoInteriorZero == phase = "ok" => \A i \in 1..(Len(st.buf) - 1) : st.buf[i] # 0
-DecodesBack == phase = "ok" => LET d == CobsDec(SubSeq(st.buf, 1, Len(st.buf) - 1)) IN d.ok /\ d.out = msg
-NonZero(m) == \A i \in 1..Len(m) : m[i] # 0
-LenFormula == phase = "ok" => /\ Len(st.buf) <= Len(msg) + (Len(msg) \div MAXRUN) + 2
-                              /\ NonZero(msg) => Len(st.buf) = Len(msg) + (Len(msg) \div MAXRUN) + 2
+\* ---------------- postcard's COBS entry points, functionally ----------------
+\* Decode(payload) is supplied by the caller (Wire!Dec of the target shape): [ok, v, pos, ...] or [ok |-> FALSE, err]
+\* from_bytes_cobs: [kind |-> "ok", v] | [kind |-> "err", err]
+FromCobs(s, MR, Decode(_)) ==
+  LET r == DecodeReport(s, MR) IN
+  IF ~r.ok THEN [kind |-> "err", err |-> "BadEncoding"]
+  ELSE LET d == Decode(r.out) IN IF d.ok THEN [kind |-> "ok", v |-> d.v, tk |-> d.tk] ELSE [kind |-> "err", err |-> d.err]
+\* take_from_bytes_cobs: additionally the remainder, which starts right after the frame's sentinel (if present)
+TakeFromCobs(s, MR, Decode(_)) ==
+  LET r == DecodeReport(s, MR) IN
+  IF ~r.ok THEN [kind |-> "err", err |-> "BadEncoding"]
+  ELSE LET used == IF r.srcUsed < Len(s) /\ s[r.srcUsed + 1] = 0 THEN r.srcUsed + 1 ELSE r.srcUsed
+           d == Decode(r.out)
+       IN IF d.ok THEN [kind |-> "ok", v |-> d.v, tk |-> d.tk, used |-> used, rem |-> SubSeq(s, used + 1, Len(s))]
+          ELSE [kind |-> "err", err |-> d.err]
 =====================================================================
